@@ -90,6 +90,7 @@ def _setup() -> None:
     q("Q2s", 2 * U.second)
     q("Q5", 5)
     q("Qz", 0 * U.meter)
+    q("Qtiny", sp.Float("1e-200") * U.meter)  # products leave the range of a binary double
     fL = Function("fL", [sT], U.length)
     g1 = Function("g1", [s1], U.Dimension(1))
     hL = Function("hL", [sL, sT], U.length)
@@ -113,7 +114,7 @@ def _setup() -> None:
 
 
 FULL = ["2", "-3", "1/2", "0", "oo", "nan", "sL", "sT", "sM", "s1", "sV", "Q3m", "Q0len",
-    "Q2s", "Q5", "Qz", "fL(sT)", "g1(s1)", "D1", "D2", "avL", "dT", "dM", "dW"]
+    "Q2s", "Q5", "Qz", "fL(sT)", "g1(s1)", "D1", "D2", "avL", "dT", "dM", "dW", "Qtiny"]
 MEDIUM = ["2", "0", "oo", "sL", "sT", "s1", "sV", "Q3m", "Q0len", "Q2s", "Qz", "fL(sT)", "D1",
     "avL", "dT"]
 REDUCED = ["2", "0", "sL", "sT", "s1", "Q3m", "Q0len", "D1"]
